@@ -132,7 +132,8 @@ func (p *parser) jumpLength() (int, error) {
 		return length, err
 	}
 
-	if length <= 0 {
+	if length <= 0 || offset+length < offset {
+		// Also covers a length so large that the end offset overflows.
 		return length, errors.New("Invalid length")
 	}
 
